@@ -167,9 +167,11 @@ impl Hist {
                 }
                 K::StopInv => st[s].stops.push(StopRec { inv: e.seq, ret: INF, how: e.idx, ms: 0, tid: e.tid }),
                 K::StopRet => {
-                    if let Some(r) = st[s].stops.iter_mut().rev().find(|r| r.tid == e.tid && r.ret == INF) {
-                        r.ret = e.seq;
-                        r.ms = e.y;
+                    // a drop during unwinding is invoked on the owner thread and observed (join) on another
+                    let pos = st[s].stops.iter().rposition(|r| r.tid == e.tid && r.ret == INF).or_else(|| st[s].stops.iter().rposition(|r| r.how == e.idx && r.ret == INF));
+                    if let Some(i) = pos {
+                        st[s].stops[i].ret = e.seq;
+                        st[s].stops[i].ms = e.y;
                     }
                 }
                 K::RBeg | K::REnd | K::MBeg | K::MEnd | K::MErr | K::SelCb => {
